@@ -850,7 +850,7 @@ fn main() -> std::process::ExitCode {
             let p = params(tier);
             from_tape(TAPE_LEN, move |t| decode_with(t, &p))
         }),
-        |t| t.pick(300_000, 12_000_000),
+        |t| t.pick(500_000, 12_000_000),
         check,
     );
     spec.render = render;
